@@ -110,10 +110,18 @@ func (o *FilterOptimizer) optimizeExpr(expr Expression) *ScanType {
 			return o.optimizeEqualExpr(e)
 		case Gt, Gte:
 			// It may use RANGE or FULL
+			if literalOnLeft(e) {
+				// 'lit' > key is key < 'lit'
+				return o.optimizeLtLteExpr(e, e.Op == Gte)
+			}
 			return o.optimizeGtGteExpr(e)
 		case Lt, Lte:
 			// It may use RANGE or FULL
-			return o.optimizeLtLteExpr(e)
+			if literalOnLeft(e) {
+				// 'lit' < key is key > 'lit'
+				return o.optimizeGtGteExpr(e)
+			}
+			return o.optimizeLtLteExpr(e, e.Op == Lte)
 		case In:
 			// It must use MGET
 			return o.optimizeInExpr(e)
@@ -134,6 +142,13 @@ func (o *FilterOptimizer) optimizeExpr(expr Expression) *ScanType {
 		// Other expression use FULL
 		return &ScanType{FULL, nil}
 	}
+}
+
+// literalOnLeft reports whether the comparison is written as 'literal' op field
+func literalOnLeft(e *BinaryOpExpr) bool {
+	_, lok := e.Left.(*StringExpr)
+	_, rok := e.Right.(*FieldExpr)
+	return lok && rok
 }
 
 func (o *FilterOptimizer) optimizeInExpr(e *BinaryOpExpr) *ScanType {
@@ -252,7 +267,7 @@ func (o *FilterOptimizer) optimizeGtGteExpr(e *BinaryOpExpr) *ScanType {
 	return &ScanType{FULL, nil}
 }
 
-func (o *FilterOptimizer) optimizeLtLteExpr(e *BinaryOpExpr) *ScanType {
+func (o *FilterOptimizer) optimizeLtLteExpr(e *BinaryOpExpr, inclusive bool) *ScanType {
 	var (
 		field KVKeyword = ValueKW
 		key   []byte    = nil
@@ -276,7 +291,11 @@ func (o *FilterOptimizer) optimizeLtLteExpr(e *BinaryOpExpr) *ScanType {
 	// return RANGE scan with end
 	if field == KeyKW && key != nil {
 		if string(key) == "" {
-			// key < '' or key <= '' means no keys should be scan
+			if inclusive {
+				// key <= '' can only match the empty key
+				return &ScanType{MGET, [][]byte{key}}
+			}
+			// key < '' means no keys should be scan
 			return &ScanType{EMPTY, nil}
 		}
 		return &ScanType{RANGE, [][]byte{nil, key}}
@@ -307,8 +326,9 @@ func (o *FilterOptimizer) optimizePrefixMatchExpr(e *BinaryOpExpr) *ScanType {
 	}
 
 	// Is Key prefix scan value and value can calculate in query,
-	// return PREFIX scan
-	if field == KeyKW && key != nil {
+	// return PREFIX scan ('lit' ^= key asks for keys that are prefixes of
+	// the literal, which is not a prefix region)
+	if field == KeyKW && key != nil && !literalOnLeft(e) {
 		return &ScanType{PREFIX, [][]byte{key}}
 	}
 	// If not just return FULL scan
